@@ -73,6 +73,8 @@ def sumdb_model(m):
     return {"ToSize": int(m.get("toSize", 0)), "FromSize": max(1, int(m.get("fromSize", 1)))}
 
 
+_SUMDB = ("internal/feeder/sumdb", "zz_verif_replay_test.go", "replay/sumdb_replay_test.go", "TestVerifReplaySumDB", sumdb_model)
+
 _FEED = ("internal/feeder", "zz_verif_replay_test.go", "replay/feeder_replay_test.go", "TestVerifReplayFeeder", lambda m: {"any": True})
 
 _DIST = ("internal/distribute/rest", "zz_verif_replay_test.go", "replay/distribute_replay_test.go", "TestVerifReplayDistribute", lambda m: {"any": True})
@@ -116,7 +118,10 @@ CONCRETISERS = {
     "witness.Proof).Marshal": ("internal/witness", "zz_verif_replay_test.go", "replay/proof_replay_test.go", "TestVerifReplayProof", lambda m: {"K": int(m.get("gk", 0)) if isinstance(m.get("gk", 0), int) else 0}),
     "witness.Proof).Unmarshal": ("internal/witness", "zz_verif_replay_test.go", "replay/proof_replay_test.go", "TestVerifReplayProof", lambda m: {"K": int(m.get("gk", 0))}),
     "bastion.parseBody": ("internal/feeder/bastion", "zz_verif_replay_test.go", "replay/parsebody_replay_test.go", "TestVerifReplayParseBody", lambda m: {"any": True}),
-    "sumdb.FeedLog$1": ("internal/feeder/sumdb", "zz_verif_replay_test.go", "replay/sumdb_replay_test.go", "TestVerifReplaySumDB", sumdb_model),
+    "sumdb.FeedLog$1": _SUMDB,
+    "sumdb.FeedLog$2": _SUMDB,
+    "client.HTTPFetcher).GetData": _SUMDB,
+    "client.NewSumDBWithContext": _SUMDB,
     "bastion.addHandler).handleUpdate": ("internal/feeder/bastion", "zz_verif_replay_test.go", "replay/bastion_replay_test.go", "TestVerifReplayBastion", bastion_model),
     "bastion.addHandler).ServeHTTP": ("internal/feeder/bastion", "zz_verif_replay_test.go", "replay/bastion_replay_test.go", "TestVerifReplayBastion", bastion_model),
     "witness.Witness).Update": ("internal/witness", "zz_verif_replay_test.go", "replay/update_replay_test.go", "TestVerifReplayUpdate", update_model),
